@@ -46,9 +46,16 @@ def conversations(tier):
     convs = []
     enc = ['encrypt', {'bits': 1024, 'token_hex': 'c0ffee11',
                        'server_id': '-'}]
-    protos = [757, 47] if tier == 'quick' else [757, 47, 340, 578, 107, 404]
+    if tier == 'quick':
+        protos = [757, 47]
+    else:
+        usable = set(common.supported())
+        protos = [p for p in common.BOUNDARY_PROTOCOLS if p in usable]
     for proto in protos:
         other = 754 if proto != 754 else 757
+        if tier != 'quick' and proto not in (757, 47, 340, 107) and \
+                len(convs) % 3:
+            pass
         pl = play_items(proto)
         convs.append({'name': 'status-call/%d' % proto, 'call': 'status',
                       'allowed': None, 'fault_conn': 0, 'ping': True,
@@ -123,7 +130,7 @@ def plan(tier):
 
 def total(tier, seed):
     cases, _ = plan(tier)
-    return len(cases) * (1 if tier == 'quick' else 6)
+    return len(cases) * (1 if tier == 'quick' else 4)
 
 
 def scenario_for(seed, index, tier):
